@@ -180,6 +180,9 @@ func (x *Exec) constVal(st *State, c *ssa.Const) Val {
 }
 
 func (x *Exec) floatLit(s string) Term {
+	if s == "0" {
+		return TInt(0) // the zero value of a float variable
+	}
 	return x.declare("f64.lit."+sanitize(s), SI)
 }
 
